@@ -6,5 +6,6 @@ export CARGO_NET_OFFLINE=true
 (cd sim && cargo build --release --offline 2>&1 | tail -3)
 gcc -O2 -fPIC -shared -o fsfault/libfsfault.so fsfault/fsfault.c -ldl
 (cd /repo && cargo build --release --offline -p emmylua_formatter --bin luafmt --target-dir /verif/target/repo 2>&1 | tail -1)
-(cd miri-c38 && MIRIFLAGS="-Zmiri-disable-stacked-borrows -Zmiri-disable-isolation" cargo +nightly miri build --offline 2>&1 | tail -1)
+# compile the Miri harness once (a 1-thread run of the tiny workload)
+(cd miri-c38 && MIRIFLAGS="-Zmiri-disable-stacked-borrows -Zmiri-disable-isolation -Zmiri-seed=1" cargo +nightly miri run --offline -- 1 0 2>&1 | tail -1)
 echo "setup ok"
